@@ -40,6 +40,7 @@ AdoptVar(v, b, dirty) ==
   /\ bcC' = [bcC EXCEPT ![b] = FreshBC]
   /\ bcDirty' = [bcDirty EXCEPT ![b] = dirty]
   /\ bcPer' = [bcPer EXCEPT ![b] = {}]
+  /\ viewHot' = [viewHot EXCEPT ![b] = {}]
   /\ everShared' = [everShared EXCEPT ![b] = FALSE]
   /\ ghostFrom' = [ghostFrom EXCEPT ![v] = <<FreshInt, FreshBC>>]
   /\ cacheFrom' = [cacheFrom EXCEPT ![v] = FreshBC]
@@ -161,7 +162,7 @@ Sync ==
                             IF e.ev = "NewVar" /\ v = e.v /\ alive[v] /\ e.ghost_given
                             THEN <<intC[v], None>> ELSE ghostFrom[v]]
   /\ phase' = "act"
-  /\ UNCHANGED <<l, taint, pre, bcAlive, bcC, bcPer, everShared, alive, bcOf, intC, precalc, use, last>>
+  /\ UNCHANGED <<l, taint, pre, bcAlive, bcC, bcPer, viewHot, everShared, alive, bcOf, intC, precalc, use, last>>
 
 Finish ==
   /\ phase = "act" /\ l = Len(Trace)
